@@ -48,11 +48,11 @@ MapSeq(s, F(_)) == [i \in 1..Len(s) |-> F(s[i])]
 NormNet(n) == [upd |-> MapSeq(n.upd, NormUpd), mut |-> MapSeq(n.mut, NormMut), ack |-> n.ack,
                rxUpd |-> MapSeq(n.rxUpd, NormUpd), rxMut |-> MapSeq(n.rxMut, NormMut), srxAck |-> n.srxAck]
 
-NormCli(o, lastNotDisc, preUsed) ==
+NormCli(o, lastNotDisc, preUsed, mt) ==
     [status |-> o.status, updTick |-> o.updTick,
      ents |-> [e \in DOMAIN o.ents |-> [alive |-> o.ents[e].alive, marker |-> o.ents[e].marker,
                                          comps |-> o.ents[e].comps, hist |-> o.ents[e].hist, pre |-> o.ents[e].pre]],
-     pre |-> o.pre, preUsed |-> preUsed, extra |-> o.extra,
+     pre |-> o.pre, preUsed |-> preUsed, extra |-> o.extra, mt |-> mt, notif |-> o.notif,
      buf |-> MapSeq(o.buf, LAMBDA b : [upd |-> b.upd, tick |-> b.tick, cnt |-> b.cnt, ents |-> b.ents, idx |-> b.idx]),
      lastNotDisc |-> lastNotDisc, panicked |-> o.panicked]
 
@@ -67,7 +67,7 @@ StateOf(post, pred) ==
               removalBuf |-> [e \in DOMAIN post.srv.removalBuf |-> ToSet(post.srv.removalBuf[e]) \cap P!Comp],
               cl |-> [c \in Clients |-> NormSrvCl(post.srv.cl[c])]],
      net |-> [c \in Clients |-> NormNet(post.net[c])],
-     cli |-> [c \in Clients |-> NormCli(post.cli[c], pred.cli[c].lastNotDisc, pred.cli[c].preUsed)],
+     cli |-> [c \in Clients |-> NormCli(post.cli[c], pred.cli[c].lastNotDisc, pred.cli[c].preUsed, pred.cli[c].mt)],
      \* events: the channels are observed, the buffers inside the apps are carried over
      ev |-> [pred.ev EXCEPT !.net = [c \in Clients |-> post.ev.net[c]]]]
 
@@ -76,7 +76,7 @@ StateOf(post, pred) ==
 
 ClFields == {"conn", "auth", "updTick", "mutTick", "inflight", "nextIdx", "vis", "pendingMap"}
 NetFields == {"upd", "mut", "ack", "rxUpd", "rxMut", "srxAck"}
-CliFields == {"status", "updTick", "ents", "buf", "panicked", "pre", "extra"}
+CliFields == {"status", "updTick", "ents", "buf", "panicked", "pre", "extra", "notif"}
 EvNetFields == {"sev", "rxSev", "cev", "srxCev"}
 SrvFields == {"tick", "frame", "running", "now", "world", "despawnBuf", "removalBuf"}
 
@@ -143,11 +143,13 @@ Predict(cur, r) ==
          [] OTHER               -> Plain(cur, TRUE)      \* Quiesce, AtRest: no state change
 
 ----------------------------------------------------------------------------
-VARIABLES l, cur, g, ge, nd, nv
+VARIABLES l, cur, g, ge, g12, nd, nv
 
-vars == <<l, cur, g, ge, nd, nv>>
+vars == <<l, cur, g, ge, g12, nd, nv>>
 
-Init == l = 1 /\ cur = P!InitStateE /\ g = P!GhostInit /\ ge = P!EvGhostInit /\ nd = 0 /\ nv = 0
+G12Init == [processed |-> [c \in Clients |-> <<>>]]     \* per client: tick |-> mutate messages processed so far
+
+Init == l = 1 /\ cur = P!InitStateE /\ g = P!GhostInit /\ ge = P!EvGhostInit /\ g12 = G12Init /\ nd = 0 /\ nv = 0
 
 GhostStep(gg, r, pre, obs, ran) ==
     LET sentNow == Len(SelectSeq(r.obs.sent, LAMBDA x : x.ch = "upd" \/ x.ch = "mut"))
@@ -194,11 +196,28 @@ EvGhostStep(gg, r, pre, obs) ==
     ELSE IF r.ev = "Connect" THEN P!EvGhostConnect(gg, r.args.c)
     ELSE gg
 
+(* C12 end to end (tracking on): a tick is reported exactly once, in the frame in which the last of the
+   mutate messages the server sent for it is processed.  Counted on observations only: a message is
+   processed in a client frame iff it was buffered or delivered before and is not buffered afterwards. *)
+TickCount(s, T) == Cardinality({i \in 1..Len(s) : s[i].tick = T})
+Processed(old, obs, c, T) == TickCount(old.cli[c].buf, T) + TickCount(old.net[c].rxMut, T) - TickCount(obs.cli[c].buf, T)
+TicksSeen(old, c) == {old.cli[c].buf[i].tick : i \in 1..Len(old.cli[c].buf)} \cup {old.net[c].rxMut[i].tick : i \in 1..Len(old.net[c].rxMut)}
+CntOf(old, c, T) == LET ms == {old.cli[c].buf[i] : i \in 1..Len(old.cli[c].buf)} \cup {old.net[c].rxMut[i] : i \in 1..Len(old.net[c].rxMut)}
+                    IN (CHOOSE m \in {x \in ms : x.tick = T} : TRUE).cnt
+C12_E2E(old, obs, gg, c) ==
+    LET notif == obs.cli[c].notif
+        before(T) == IF T \in DOMAIN gg.processed[c] THEN gg.processed[c][T] ELSE 0
+    IN /\ \A i, j \in 1..Len(notif) : i # j => notif[i] # notif[j]
+       /\ \A T \in TicksSeen(old, c) :
+             LET total == before(T) + Processed(old, obs, c, T)
+             IN (Processed(old, obs, c, T) > 0 /\ total = CntOf(old, c, T)) <=> (\E i \in 1..Len(notif) : notif[i] = T)
+       /\ \A i \in 1..Len(notif) : notif[i] \in TicksSeen(old, c)
+
 \* monitors evaluated on the observed state; `gePre` is the event ghost before this step
-Violations(r, old, obs, gg, gePre, geNew) ==
+Violations(r, old, obs, gg, gePre, geNew, gg12) ==
     {p \in {"C01", "C02", "C02mono", "C03", "C03mono", "C08data", "C08query", "C11rest", "panic",
             "C04stamp", "C04delivery", "C05recipients", "C05delivery", "C05complete", "C05server", "C05serverComplete",
-            "C07unauth", "C16"} :
+            "C07unauth", "C16", "C12e2e"} :
         CASE p = "C01"      -> r.ev = "Quiesce" /\ ~P!C01_AtQuiescence(obs)
           [] p = "C02"      -> ~P!C02(obs, gg)
           [] p = "C02mono"  -> r.ev # "Init" /\ ~P!C02_MonoStep(old, obs)
@@ -208,6 +227,8 @@ Violations(r, old, obs, gg, gePre, geNew) ==
           [] p = "C08query" -> ~P!C08_Query(obs, gg)
           [] p = "C11rest"  -> r.ev = "AtRest" /\ ~P!C11_SilentAtRest(gg)
           [] p = "C16"      -> ~P!C16(obs, gg)
+          [] p = "C12e2e"   -> Cfg.track /\ r.ev = "CliFrame" /\ old.cli[r.args.c].status = "Connected"
+                               /\ ~C12_E2E(old, obs, gg12, r.args.c)
           [] p = "C04stamp" -> r.ev = "SrvFrame" /\ ~P!C04_Stamp(obs, SentEv(r))
           [] p = "C04delivery" -> r.ev = "CliFrame" /\ ~P!C04_Delivery(obs, gePre, r.args.c, CliDeliveries(r))
           [] p = "C05recipients" -> r.ev = "SrvFrame" /\ ~P!C05_Recipients(old, geNew, SentEv(r))
@@ -243,7 +264,7 @@ Step ==
           \E ge1 \in {EvGhostStep(geBase, r, base, obs)} :
             LET ds == IF MonitorsOnly THEN {}
                       ELSE Diffs(pr.st, obs) \cup (IF pr.ok THEN {} ELSE {<<"enabled", r.ev, "-">>}) \cup DeliveryDiff(r, pr)
-                vs == Violations(r, base, obs, g1, geBase, ge1)
+                vs == Violations(r, base, obs, g1, geBase, ge1, IF isInit THEN G12Init ELSE g12)
                       \cup (IF r.ev = "Quiesce" /\ Cfg.rel /\ ~ParentsAgree(r.post) THEN {"C01parent"} ELSE {})
                 printable(d) == d[1] \notin {"enabled", "delivered"}
             IN /\ \A d \in ds :
@@ -259,6 +280,14 @@ Step ==
                /\ cur' = obs
                /\ g' = g1
                /\ ge' = ge1
+               /\ g12' = LET b == IF isInit THEN G12Init ELSE g12
+                          IN IF r.ev = "CliFrame" /\ Cfg.track
+                             THEN IF obs.cli[r.args.c].status # "Connected" \/ base.cli[r.args.c].status # "Connected"
+                                  THEN [b EXCEPT !.processed[r.args.c] = <<>>]
+                                  ELSE [b EXCEPT !.processed[r.args.c] =
+                                          [T \in (DOMAIN @) \cup TicksSeen(base, r.args.c) |->
+                                              (IF T \in DOMAIN @ THEN @[T] ELSE 0) + Processed(base, obs, r.args.c, T)]]
+                             ELSE IF r.ev \in {"Disconnect", "Stop"} THEN G12Init ELSE b
     /\ l' = l + 1
 
 Spec == Init /\ [][Step]_vars
